@@ -40,3 +40,29 @@ pub fn by_name(_name: &str) -> Box<dyn Subject> {
 pub fn subjects() -> Vec<Box<dyn Subject>> {
     vec![Box::new(Btor2)]
 }
+
+/// Public convenience constructors of the BTOR2 parser.
+pub fn via_constructors(input: &[u8]) -> Vec<(&'static str, Vec<String>, End)> {
+    use std::io::{BufRead, BufReader};
+    let mut out = Vec::new();
+    let mut run = |name: &'static str, p: Result<Parser<'_>, ParseError>| {
+        let mut items = Vec::new();
+        let end = match p {
+            Err(e) => end_of(e),
+            Ok(mut p) => loop {
+                match p.next_line() {
+                    Ok(Some(line)) => items.push(format!("{line:?}")),
+                    Ok(None) => break End::Clean,
+                    Err(e) => break end_of(e),
+                }
+            },
+        };
+        out.push((name, items, end));
+    };
+    let mut br = BufReader::with_capacity(6, input);
+    let _ = br.fill_buf();
+    run("from_read", Parser::from_read(input, Config::default()));
+    run("from_buf_reader", Parser::from_buf_reader(br, Config::default()));
+    run("from_boxed_dyn_read", Parser::from_boxed_dyn_read(Box::new(input), Config::default()));
+    out
+}
